@@ -1,8 +1,9 @@
 #!/bin/bash
-# tools/seed_save.sh <id> <caught> <missed|-> <note>   (copies /tmp/seed/<id>/SEED into /verif/seeded/<id> and writes meta.json)
-id="$1"
+# tools/seed_save.sh <seed-src-dir> <dest-id> <caught> <missed|-> <note>
+# copies <seed-src-dir>/{patch.diff,demo,meta.json} into /verif/seeded/<dest-id> and writes meta.json
+src="$1"; id="$2"
 mkdir -p /verif/seeded/$id/demo
-cp /tmp/seed/$id/SEED/patch.diff /verif/seeded/$id/patch.diff
-cp -r /tmp/seed/$id/SEED/demo/. /verif/seeded/$id/demo/
-cp /tmp/seed/$id/SEED/meta.json /verif/seeded/$id/agent_meta.json
-python3 /verif/tools/seed_meta.py "$id" "$2" "$3" "$4"
+cp "$src/patch.diff" /verif/seeded/$id/patch.diff
+cp -r "$src/demo/." /verif/seeded/$id/demo/
+cp "$src/meta.json" /verif/seeded/$id/agent_meta.json
+python3 /verif/tools/seed_meta.py "$id" "$3" "$4" "$5"
